@@ -31,12 +31,12 @@ import (
 
 func init() {
 	comps := map[string]string{
-		"fiber app, router, DefaultCtx, redirect / flash codec, binders": "real (instrumented)",
-		"fasthttp request / response codecs, RequestCtx":                 "real (not instrumented)",
+		"fiber app, router, DefaultCtx, redirect / flash codec, binders":                                                       "real (instrumented)",
+		"fasthttp request / response codecs, RequestCtx":                                                                       "real (not instrumented)",
 		"fasthttp connection loop (Server.ServeConn: keep-alive, request streaming, ctx/reader/writer reuse, error responses)": "real (not instrumented) in about a third of the runs, over a simulated net.Conn whose segmentation, short reads and pauses come from the tape; otherwise stub: connection tasks own one RequestCtx each and refill it from raw bytes (harness.Conn)",
-		"fasthttp accept loop / worker pool":                             "stub (connections are created by the harness)",
-		"sync.Pool (fiber contexts, redirects, binders; fasthttp and bytebufferpool objects)": "simulated: which released object serves the next request is a tape choice; in half of the runs byte buffers are overwritten when they are handed back",
-		"template engine (Views), view bindings":                         "rendered through a template file (no engine configured)",
+		"fasthttp accept loop / worker pool":                                                                                   "stub (connections are created by the harness)",
+		"sync.Pool (fiber contexts, redirects, binders; fasthttp and bytebufferpool objects)":                                  "simulated: which released object serves the next request is a tape choice; in half of the runs byte buffers are overwritten when they are handed back",
+		"template engine (Views), view bindings":                                                                               "rendered through a template file (no engine configured)",
 	}
 	harness.Register(&harness.Engine{
 		Name: "iso", Property: "C05", Level: "exploration", Main: isoMain, MaxSimTime: 10 * time.Minute,
